@@ -135,6 +135,11 @@ def _merge(q, p):
         return rep(2, q)
     if q[0] == "undef" and p[0] == "undef":
         return undef(q[1] + p[1])
+    if q[0] == "select" and p[0] == "select" and q[2] is p[2]:
+        ma = _merge(q[3], p[3])
+        mb = _merge(q[4], p[4])
+        if ma is not None and mb is not None:
+            return select(q[2], ma, mb)
     return None
 
 
@@ -513,6 +518,13 @@ def nary(op, w, xs):
             others = [x for x in rest if x is not r]
             inner = nary("and", w, others) if len(others) > 1 else others[0]
             return select(r[2], inner, const(w, 0))
+    if op == "or" and len(rest) == 2 and rest[0][0] == "and" and rest[1][0] == "and":
+        P, Q = set(map(id, rest[0][2:])), set(map(id, rest[1][2:]))
+        dp = [x for x in rest[0][2:] if id(x) not in Q]
+        dq = [x for x in rest[1][2:] if id(x) not in P]
+        if len(dp) == 1 and len(dq) == 1 and dp[0] is not_(dq[0]):
+            common = [x for x in rest[0][2:] if id(x) in Q]
+            return nary("and", w, common) if len(common) > 1 else common[0]
     if op == "or" and len(rest) == 2:
         r = _rot_match(rest[0], rest[1]) or _rot_match(rest[1], rest[0])
         if r is not None:
@@ -640,6 +652,9 @@ def mul(a, b):
 
 def sub(a, b):
     w = a[1]
+    if b[0] == "rep" and a[0] == "xor" and len(a) == 4 and (a[2] is b or a[3] is b):
+        x = a[3] if a[2] is b else a[2]
+        return select(b[2], neg(x), x)
     if b[0] == "const":
         return add(a, const(w, -b[2]))
     if a is b:
@@ -1083,8 +1098,8 @@ def select(c, a, b):
         return a
     if c[0] == "not":
         return select(c[2], b, a)
-    if c[0] in ("icmp",) and c[2] in ("ne",):
-        return select(icmp("eq", c[3], c[4]), b, a)
+    if c[0] in ("icmp",) and c[2] in ("ne", "ule", "uge", "sle", "sge"):
+        return select(icmp(INV[c[2]], c[3], c[4]), b, a)
     if c[0] == "fcmp" and c[2] in ("une", "uge", "ugt", "ule", "ult", "ueq", "uno"):
         # canonical: ordered predicate as condition
         return select(fcmp(FINV[c[2]], c[3], c[4]), b, a)
@@ -1111,6 +1126,25 @@ def select(c, a, b):
                 return mk(kind + "sat", w, b[2], amt)
             if kind == "ashr" and a is rep(w, msb(b[2])):
                 return mk(kind + "sat", w, b[2], amt)
+    if c[0] == "icmp" and c[2] in ("ult", "ule", "ugt", "uge", "slt", "sle", "sgt", "sge") and \
+            ((c[3] is a and c[4] is b) or (c[3] is b and c[4] is a)):
+        pr = c[2] if c[3] is a else SWAP[c[2]]       # predicate as "a pr b" ; a is chosen when true
+        sgn = pr[0]
+        less = pr[1] == "l"
+        name = "call:llvm.%s%s" % (sgn, "min" if less else "max")
+        return opc(name, w, a, b)
+    if c[1] == 1 and b[0] == "neg" and b[2] is a and c is msb(a):
+        pass
+    if a[0] == "neg" and a[2] is b and c is msb(b):
+        return mk("call:llvm.abs", w, b, const(1, 0))
+    if b[0] == "neg" and b[2] is a and c is msb(a):
+        return neg(mk("call:llvm.abs", w, a, const(1, 0)))
+    if w == 1 and a is not_(b):
+        return xor(c, b)
+    if c[0] == "icmp" and c[2] == "sgt" and is_zero(c[4]) and a[0] == "neg" and a[2] is b and c[3] is b:
+        return neg(mk("call:llvm.abs", w, b, const(1, 0)))
+    if c[0] == "icmp" and c[2] == "sgt" and is_zero(c[4]) and b[0] == "neg" and b[2] is a and c[3] is a:
+        return mk("call:llvm.abs", w, a, const(1, 0))
     if c[0] == "icmp" and c[2] == "eq" and is_zero(c[4]) and b[0] in ("fshl", "fshr") and \
             b[2] is b[3] and a is b[2] and strip_zext(c[3]) is b[4]:
         return b        # rotation by 0 is the identity
@@ -1133,8 +1167,9 @@ def select(c, a, b):
     if a is b:
         return a
     # split across concat boundaries (selects of packed lanes)
-    cuts = set(_boundaries(a)) & set(_boundaries(b))
-    if cuts and (a[0] == "concat" and b[0] == "concat"):
+    cuts = set(_boundaries(a)) | set(_boundaries(b))
+    if cuts and (a[0] == "concat" or b[0] == "concat") and \
+            (a[0] in ("concat", "arg", "const", "mem") and b[0] in ("concat", "arg", "const", "mem")):
         cl = sorted(cuts)
         parts = []
         lo = 0
@@ -1424,6 +1459,10 @@ class Uneval(Exception):
     pass
 
 
+class Poison(Uneval):
+    """the closed form is undefined (poison / UB) at this point"""
+
+
 def _clz(v, w):
     return w - v.bit_length()
 
@@ -1528,7 +1567,7 @@ def _ev(t, env, memo):
         kind = o[:-3] if sat else o
         if a >= w:
             if not sat:
-                raise Uneval("poison shift")
+                raise Poison("shift amount %d >= width %d" % (a, w))
             if kind == "ashr":
                 return M if x >> (w - 1) else 0
             return 0
@@ -1552,17 +1591,19 @@ def _ev(t, env, memo):
             return bin(vs[0]).count("1")
         if n == "llvm.ctlz":
             if vs[0] == 0 and len(vs) > 1 and vs[1]:
-                raise Uneval("ctlz zero undef")
+                raise Poison("ctlz(0) with is_zero_undef")
             return _clz(vs[0], w)
         if n == "llvm.cttz":
             if vs[0] == 0 and len(vs) > 1 and vs[1]:
-                raise Uneval("cttz zero undef")
+                raise Poison("cttz(0) with is_zero_undef")
             return _ctz(vs[0], w)
         if n == "llvm.bswap":
             return int.from_bytes(vs[0].to_bytes(w // 8, "little"), "big")
         if n == "llvm.bitreverse":
             return int(format(vs[0], "0%db" % w)[::-1], 2)
         if n == "llvm.abs":
+            if len(vs) > 1 and vs[1] and vs[0] == 1 << (w - 1):
+                raise Poison("abs(INT_MIN) with int_min_poison")
             return abs(_signed(vs[0], w)) & M
         if n == "llvm.umin":
             return min(vs[0], vs[1])
@@ -1583,6 +1624,14 @@ def _ev(t, env, memo):
             s = _signed(vs[0], w) - _signed(vs[1], w)
             return max(min(s, (1 << (w - 1)) - 1), -(1 << (w - 1))) & M
         raise Uneval(n)
+    if o == "spec:bit_floor":
+        x = ev(t[2], env, memo)
+        return (1 << (x.bit_length() - 1)) if x else 0
+    if o == "spec:bit_ceil":
+        x = ev(t[2], env, memo)
+        if x <= 1:
+            return 1
+        return (1 << (x - 1).bit_length()) & M
     if o == "udiv" or o == "urem" or o == "sdiv" or o == "srem":
         a = ev(t[2], env, memo)
         b = ev(t[3], env, memo)
